@@ -274,14 +274,14 @@ def ordering_key(repo, run):
                                        "reverse order (and the 'first' terminal event is the last one met)" % (k,))
 
 
-def in_step_test(repo, run, m):
-    rid = run.rule("C07.5", "the in-step test is start <= root <= end for forward steps and end <= root <= start for backward ones, selected by a guard on the "
+def in_step_test(repo, run, m, rule_id="C07.5"):
+    rid = run.rule(rule_id, "the in-step test is start <= root <= end for forward steps and end <= root <= start for backward ones, selected by a guard on the "
                             "sign of the step, with start = t[counter] and end = previous time + dTime", floor=1)
     loop, act, roots, evs, pos, root, ev = _event_loop(m)
     tp = [st for st in ast.walk(loop) if isinstance(st, ast.Assign) and src(st.targets[0]) == "true_positive"]
     if len(tp) != 2:
         run.judged(rid, "true_positive assignments: %d" % len(tp), ok=False)
-        run.report("C07.5", DS, loop, "the in-step test is not assigned in two direction branches", text="true_positive structure")
+        run.report(rule_id, DS, loop, "the in-step test is not assigned in two direction branches", text="true_positive structure")
         return
     iff = tp[0]._parent
     okg = isinstance(iff, ast.If) and tp[0] in iff.body and tp[1] in iff.orelse
@@ -320,11 +320,28 @@ def in_step_test(repo, run, m):
     if okg and not test_positive:
         body_p, else_p = else_p, body_p
     ok = okg and body_p == fwd and else_p == bwd
+    # the FAR edge of the step must be included (a terminal event exactly at the end of a step -- a grid point, or the target itself -- has no next step
+    # that could report it); the near edge may be open or closed (a root on it was already reported by the previous step)
+    strict_far = []
+    for t_, far_side in ((tp[0], "upper" if test_positive else "lower"), (tp[1], "lower" if test_positive else "upper")):
+        for cmp_ in [n for n in ast.walk(t_.value) if isinstance(n, ast.Compare)]:
+            left = cmp_.left
+            for op, r in zip(cmp_.ops, cmp_.comparators):
+                lo, hi, strict = (left, r, isinstance(op, ast.Lt)) if isinstance(op, (ast.Lt, ast.LtE)) else ((r, left, isinstance(op, ast.Gt)) if isinstance(op, (ast.Gt, ast.GtE)) else (None, None, False))
+                if lo is not None and strict and end is not None:
+                    if (far_side == "upper" and c.poly(hi).canon() == end) or (far_side == "lower" and c.poly(lo).canon() == end):
+                        strict_far.append(cmp_)
+                left = r
     run.judged(rid, "in-step test: forward %s / backward %s under `%s`" % (sorted(body_p), sorted(else_p), src(iff.test) if isinstance(iff, ast.If) else "?"), ok=ok)
     if not ok:
-        run.report("C07.5", DS, iff if isinstance(iff, ast.If) else tp[0], "the in-step test is not the mirrored pair start<=root<=end / end<=root<=start selected by the sign of the step: "
+        run.report(rule_id, DS, iff if isinstance(iff, ast.If) else tp[0], "the in-step test is not the mirrored pair start<=root<=end / end<=root<=start selected by the sign of the step: "
                                                                           "roots outside the step are accepted or roots inside it rejected in one direction",
                    text="in-step test branches: %s | %s" % (sorted(body_p), sorted(else_p)))
+    run.judged(rid, "the far edge of the step (previous time + dTime) is included in both directions", ok=not strict_far)
+    for cmp_ in strict_far:
+        run.report(rule_id, DS, cmp_, "the in-step test excludes the far edge of the step (strict comparison with previous time + dTime): an event whose root is exactly the end "
+                                      "of a step -- a fixed-step grid point or the target time -- is dropped; for a terminal event there is no next step to report it, so the "
+                                      "run stops with status 'terminated by event' but without the event")
 
 
 def attributes_and_kinds(repo, run):
